@@ -269,3 +269,14 @@ def search(rec, ctx):
         check(rec, {"src": src, "stream": "target-placement"})
 
     drive(st.randoms(use_true_random=False), targets, ctx.budget(3000, 30000), ctx.hseed("targets"))
+
+    # xonsh atoms where a match pattern expects a literal, a key, a class or a value: rejected, or a tree compile() takes
+    PATTERN_TEMPLATES = ["match v:\n    case {L}: pass\n", "match v:\n    case {{{L}: 1}}: pass\n", "match v:\n    case [{L}, *_]: pass\n", "match v:\n    case A(k={L}): pass\n", "match v:\n    case {L} | 2: pass\n",
+                         "match v:\n    case {L}.a: pass\n", "match v:\n    case {L}(): pass\n", "match v:\n    case ({L}) as w: pass\n", "match {L}:\n    case 1: pass\n", "match v:\n    case 1 if {L}: pass\n", "match v:\n    case -{L}: pass\n", "match v:\n    case 1+{L}: pass\n"]
+
+    def patterns(rnd):
+        sg = xonsh.sugar(rnd, allow_bool=False)
+        tmpl = rnd.choice(PATTERN_TEMPLATES)
+        check(rec, {"src": tmpl.replace("{{", "\x00").replace("}}", "\x01").replace("{L}", sg.text).replace("\x00", "{").replace("\x01", "}"), "stream": "pattern-placement"})
+
+    drive(st.randoms(use_true_random=False), patterns, ctx.budget(2500, 25000), ctx.hseed("patterns"))
